@@ -263,6 +263,20 @@ func TestVerifABEOddValues(t *testing.T) {
 		}
 		return string(b)
 	}
+	// labels and values that BEGIN with an operator word (a lexer deciding on
+	// a prefix would split them)
+	for _, kw := range []struct {
+		text string
+		node *abepol.Node
+	}{
+		{"ring:or2", leaf("ring", "or2")},
+		{"not not0:off", not(leaf("not0", "off"))},
+		{"and1:x or or2:y", or(leaf("and1", "x"), leaf("or2", "y"))},
+		{"android:1 and order:nothing", and(leaf("android", "1"), leaf("order", "nothing"))},
+		{"not_before:and_then or orange:not9", or(leaf("not_before", "and_then"), leaf("orange", "not9"))},
+	} {
+		pols = append(pols, kw)
+	}
 	for _, n := range []int{255, 256, 257, 600} {
 		pols = append(pols, struct {
 			text string
@@ -271,6 +285,7 @@ func TestVerifABEOddValues(t *testing.T) {
 	}
 	sets := []abepol.Assign{
 		{"w": lv(255)}, {"w": lv(256)}, {"w": lv(257)}, {"w": lv(600), "a": "1"}, {"b": "7"},
+		{"ring": "or2"}, {"not0": "off"}, {"not0": "on"}, {"and1": "x"}, {"or2": "y"}, {"android": "1", "order": "nothing"}, {"orange": "not9"}, {"not_before": "and_then"},
 		{"a": ""}, {"a": "", "b": "1"}, {"a": "", "b": ""}, {"a": " "}, {"a": "1 "}, {"a": " 1"}, {"a": "１"}, {"a": string(long)},
 		{"a": "1", "b": ""}, {"": "1"}, {"a": "1"}, {"a": "2", "b": "1"}, {"tier_2": ""}, {"tier_2": "free_plan"}, {},
 	}
